@@ -248,7 +248,7 @@ def _filter_pair(M):
             return [('threshold-valid', thr_ok(M, c.f(c.p('self'), 'threshold'))), ('token-count-domain', S.toks_bounded())]
 
         def setup(self, c):
-            return S.toks_axioms()
+            return S.toks_axioms() + arithmetic_axioms(M, c.f(c.p('self'), 'threshold'))
 
         def ensures(self, c, res):
             f = c.p('self')
@@ -257,9 +257,14 @@ def _filter_pair(M):
             t = c.f(f, 'threshold')
             nl, nr = L_len(LV, S.toks(rs, l)), L_len(LV, S.toks(rs, r))
             missing = z3.Or(N.val_isnull(l), N.val_isnull(r))
+            o = S.isectV(S.toks(rs, l), S.toks(rs, r))
             return [('exact', res.t == z3.If(missing, z3.Not(c.f(f, 'allow_missing')),
                                              z3.If(z3.And(nl == 0, nr == 0), z3.Not(c.f(f, 'allow_empty')),
-                                                   z3.Not(window(M, t, nl, nr)))))]
+                                                   z3.Not(window(M, t, nl, nr))))),
+                    # C04: present values whose similarity meets the threshold (set mode) are never dropped
+                    ('never-drops-a-qualifying-pair', z3.Implies(
+                        z3.And(z3.Not(missing), rs, z3.Or(nl > 0, nr > 0), required_sym(M, o, nl, nr, t)),
+                        z3.Not(res.t)))]
     return FilterPair()
 
 
